@@ -145,7 +145,13 @@ impl<'tcx> Cx<'tcx> {
                 ProjectionElem::Deref => J::Arr(vec![s("*")]),
                 ProjectionElem::Field(f, fty) => {
                     let name = self.field_name(pty, f.as_usize());
-                    J::Arr(vec![s("f"), J::Int(f.as_usize() as i128), s(name), s(ty_str(fty))])
+                    J::Arr(vec![
+                        s("f"),
+                        J::Int(f.as_usize() as i128),
+                        s(name),
+                        s(ty_str(fty)),
+                        s(ty_str(pty.ty)),
+                    ])
                 }
                 ProjectionElem::Index(l) => J::Arr(vec![s("i"), J::Int(l.as_usize() as i128)]),
                 ProjectionElem::ConstantIndex { offset, min_length, from_end } => J::Arr(vec![
